@@ -64,8 +64,12 @@ def handleL4 (req ans : String) : Verdict :=
         && ((realOut.splitOn "Internal Error").length == 1
             -- RET with an empty call stack is a reported run-time error (dynamic, not a static inconsistency)
             || (realOut.splitOn "ret is encountered without corresponding call").length == 2)
-      { model := if ok then ans else model, specOk := specOk,
-        spec := "exit status 0/1, no 'Internal Error' in the output", nontrivial := !r.diag && r.trace.length > 1 }
+      -- at this level the model's run (assembler + loader + run loop + services + prompt, each part proved
+      -- against its property in Props.C08-C20) IS the reference: a different trace, final state or output
+      -- is a violation with this request as the failing input
+      { model := if ok then ans else model, specOk := specOk && ok,
+        spec := if ok then "exit status 0/1, no 'Internal Error' in the output" else "reference run: " ++ model,
+        nontrivial := !r.diag && r.trace.length > 1 }
     | _, _, _ => bad
   | _ => bad
 
